@@ -36,8 +36,8 @@ from . import core, devices
 # after the Euler step).  Which one the tree under test implements is decided by TLC
 # (trace validation under both), and that mechanism is then model-checked.
 CODE = dict(MMask=True, MBothHalves=True, MFreshLinks=True, MFixPsi=True)
-PINNED = dict(MTrigger="prev_close", MReimpose=False, **CODE)
-REPAIRED = dict(MTrigger="exact", MReimpose=True, **CODE)
+PINNED = dict(MTrigger="prev_close", MReimpose=False, MReimposeOnRetry=True, **CODE)
+REPAIRED = dict(MTrigger="exact", MReimpose=True, MReimposeOnRetry=True, **CODE)
 
 INV_OPS = ["TypeOK", "RefreshEqualsRebuild", "FixedRowsAreIdentity", "NoOtherRowPinned", "LapHermitianOnFreeBlock"]
 INV_C10_STEP = ["TypeOK", "RefreshEqualsRebuild", "OperatorsMatchLatestA", "NoScreeningNoInduced"]
@@ -301,10 +301,15 @@ def natural_run(tdgl, a, tmp):
     tp = a.get("terminal_psi", [0.0, 0.0])
     v = None if tp == "none" else (complex(tp[0], tp[1]) if tp[1] else float(tp[0]))
     dt = a.get("dt", 2.0 ** -6)
-    steps = a["steps"]
+    ad = a.get("adaptive")        # dict(dt_init, dt_max, solve_time[, window, max_retries]): adaptive steps with retries
     work = tempfile.mkdtemp(prefix="opsnat", dir=tmp)
     out = os.path.join(work, "out.h5")
-    opts = tdgl.SolverOptions(solve_time=steps * dt - dt / 2, dt_init=dt, adaptive=False, save_every=1,
+    if ad:
+        timing = dict(solve_time=ad["solve_time"], dt_init=ad["dt_init"], dt_max=ad["dt_max"], adaptive=True,
+                      adaptive_window=ad.get("window", 3), max_solve_retries=ad.get("max_retries", 10))
+    else:
+        timing = dict(solve_time=a["steps"] * dt - dt / 2, dt_init=dt, adaptive=False)
+    opts = tdgl.SolverOptions(**timing, save_every=1,
                               progress_interval=10 ** 9, pause_on_interrupt=False, output_file=out,
                               include_screening=bool(a.get("screening", False)), field_units="mT", current_units="uA",
                               terminal_psi=v, screening_tolerance=a.get("screening_tol", 1e-3))
@@ -325,10 +330,12 @@ def natural_run(tdgl, a, tmp):
 
     ev = []
     st = dict(in_update=False, applied=None, induced=None, level=0, seen={}, pending=None, psi_prev=None, psi0=None,
-              nonterm_evolved=False, term_evolved=False, max_stale=0.0, first_stale=None, step=-1, unreadable=None)
+              nonterm_evolved=False, term_evolved=False, max_stale=0.0, first_stale=None, step=-1, unreadable=None,
+              refusals=0, retried_steps=0, max_dev_after_update=0.0, max_dev_after_retried_update=0.0)
     orig = dict(init=TDGLSolver.__init__, update=TDGLSolver.update, field=TDGLSolver.update_applied_vector_potential,
                 euler=TDGLSolver.adaptive_euler_step, obs=TDGLSolver.solve_for_observables,
-                induced=TDGLSolver.get_induced_vector_potential, links=MeshOperators.set_link_exponents)
+                induced=TDGLSolver.get_induced_vector_potential, links=MeshOperators.set_link_exponents,
+                solve=TDGLSolver.solve_for_psi_squared)
 
     def ops_flags(ops, A):
         """held operators vs a fresh MeshOperators for potential A (exact, dense)"""
@@ -393,7 +400,18 @@ def natural_run(tdgl, a, tmp):
             if st["first_stale"] is None:
                 st["first_stale"] = st["step"]
         st["pending"] = {"fresh": bool(eq and link_eq), "pinrows": cls, "other": other}
-        return orig["euler"](self, step, psi, abs_sq_psi, mu, epsilon, dt_)
+        before = st["refusals"]
+        res = orig["euler"](self, step, psi, abs_sq_psi, mu, epsilon, dt_)
+        # retried: some evaluation of |psi|^2 was refused (returned None) before the step was accepted
+        st["pending"]["retried"] = st["refusals"] > before
+        st["step_retried"] = st.get("step_retried", False) or st["pending"]["retried"]
+        return res
+
+    def w_solve(**kws):
+        r = orig["solve"](**kws)
+        if r is None:
+            st["refusals"] += 1
+        return r
 
     def w_obs(self, psi, dA_dt):
         if st["pending"] is not None:
@@ -419,6 +437,13 @@ def natural_run(tdgl, a, tmp):
         finally:
             st["in_update"] = False
         psi = np.asarray(res.psi)
+        if v is not None and len(tsites):
+            dev_now = float(np.max(np.abs(psi[tsites] - v)))
+            st["max_dev_after_update"] = max(st["max_dev_after_update"], dev_now)
+            if st.get("step_retried"):
+                st["max_dev_after_retried_update"] = max(st["max_dev_after_retried_update"], dev_now)
+        st["retried_steps"] += bool(st.get("step_retried"))
+        st["step_retried"] = False
         ev.append({"ev": "finish", "term": _term_class(psi, tsites, v),
                    "ops_applied": bool(np.array_equal(np.asarray(self.operators.link_exponents), st["applied"]))})
         if len(nonterm) and not np.array_equal(psi[nonterm], st["psi_prev"][nonterm]):
@@ -435,6 +460,7 @@ def natural_run(tdgl, a, tmp):
     TDGLSolver.solve_for_observables = w_obs
     TDGLSolver.get_induced_vector_potential = w_induced
     MeshOperators.set_link_exponents = w_links
+    TDGLSolver.solve_for_psi_squared = staticmethod(w_solve)
     cwd = os.getcwd()
     aborted = None
     try:
@@ -456,6 +482,7 @@ def natural_run(tdgl, a, tmp):
         TDGLSolver.solve_for_observables = orig["obs"]
         TDGLSolver.get_induced_vector_potential = orig["induced"]
         MeshOperators.set_link_exponents = orig["links"]
+        TDGLSolver.solve_for_psi_squared = staticmethod(orig["solve"])
     if st["unreadable"]:
         raise RuntimeError(st["unreadable"])
     if aborted:
@@ -482,7 +509,9 @@ def natural_run(tdgl, a, tmp):
                 exact=False, driven=bool(a.get("field") or a.get("current")), ev=ev,
                 info=dict(sites=nsites, terminal_sites=int(len(tsites)), frames=len(classes), steps=nfin,
                           max_relative_staleness=st["max_stale"], first_stale_step=st["first_stale"],
-                          max_terminal_deviation_in_frames=worst, input=a))
+                          max_terminal_deviation_in_frames=worst, retried_steps=st["retried_steps"],
+                          refused_evaluations=st["refusals"], max_terminal_deviation_after_update=st["max_dev_after_update"],
+                          max_terminal_deviation_after_retried_update=st["max_dev_after_retried_update"], input=a))
 
 
 # --------------------------------------------------------------------------- validation
@@ -735,3 +764,13 @@ def replay_file(ctx, path, invariants):
     print(f"not a behaviour of OpsCache: stuck at event {far}: "
           f"{json.dumps({k: v for k, v in (at or {}).items() if k not in ('lap', 'grad')})}")
     return 1
+
+
+def identify_among(ctx, traces, mechs, what):
+    """As identify_mechanism, for named candidate mechanisms {label: mech}: returns the labels under which TLC
+    accepts every trace (in the order given) and the accepted sets."""
+    labels = list(mechs)
+    out = in_parallel([lambda lb=lb: validate(ctx, traces, mechs[lb], [], f"{what}, mechanism={lb}", count_impl=False)
+                       for lb in labels])
+    res = {lb: o[0] for lb, o in zip(labels, out)}
+    return [lb for lb in labels if len(res[lb]) == len(traces)], res
